@@ -21,7 +21,9 @@ from ufl.corealg.multifunction import MultiFunction
 from ufl.domain import extract_domains, extract_unique_domain
 from ufl.form import Form
 from ufl.integral import Integral
+from ufl.pullback import SymmetricPullback
 from ufl.utils.indexflattening import flatten_multiindex, shape_to_strides
+from ufl.utils.sequences import product
 
 
 class SumDegreeEstimator(MultiFunction):
@@ -188,19 +190,37 @@ class SumDegreeEstimator(MultiFunction):
                 element = self.element_replace_map.get(element, element)
             sub_elements = element.sub_elements
             if sub_elements and len(multiindex) == len(op.ufl_shape):
-                component = flatten_multiindex(
-                    [int(idx) for idx in multiindex], shape_to_strides(op.ufl_shape)
+                sub_element = self._sub_element_of_component(
+                    op, element, tuple(int(idx) for idx in multiindex)
                 )
-                # Walk the sub-elements in order to find which one covers
-                # this flattened component.
-                offset = 0
-                for sub_element in sub_elements:
-                    sub_size = sub_element.reference_value_size
-                    if component < offset + sub_size:
-                        d = sub_element.embedded_superdegree
-                        return self.default_degree if d is None else d
-                    offset += sub_size
+                if sub_element is not None:
+                    d = sub_element.embedded_superdegree
+                    return self.default_degree if d is None else d
         return A
+
+    def _sub_element_of_component(self, op, element, component):
+        """Find the sub-element that a component of a form argument belongs to.
+
+        The components of a form argument are components of its value on
+        the physical cell, so the sub-elements are walked with their
+        physical value sizes: these differ from the reference value sizes
+        for e.g. Piola mapped sub-elements on manifolds. A symmetric
+        element maps its block components to sub-elements explicitly.
+        """
+        sub_elements = element.sub_elements
+        pullback = element.pullback
+        if isinstance(pullback, SymmetricPullback):
+            block = component[: len(pullback._block_shape)]
+            return sub_elements[pullback._symmetry[block]]
+        domain = extract_unique_domain(op, expand_mesh_sequence=False)
+        flat_component = flatten_multiindex(component, shape_to_strides(op.ufl_shape))
+        offset = 0
+        for sub_domain, sub_element in zip(domain.iterable_like(element), sub_elements):
+            sub_size = product(sub_element.pullback.physical_value_shape(sub_element, sub_domain))
+            if flat_component < offset + sub_size:
+                return sub_element
+            offset += sub_size
+        return None
 
     def component_tensor(self, v, A, ii):
         """Apply to component_tensor."""
